@@ -87,6 +87,16 @@ def splitBlocks (bs : Nat) : Nat → Bytes → List Bytes
   | 0, _ => []
   | f + 1, d => if d = [] then [] else d.take bs :: splitBlocks bs f (d.drop bs)
 
+/-- size of the pad block's data for a body of `bodyLen` characters: the minimal size that makes the header a block multiple,
+plus `(padMode - 1)` further cipher blocks -/
+def padSize (bs bodyLen padMode : Nat) : Nat := (bs - (16 + bodyLen + 4) % bs) % bs + (padMode - 1) * bs
+
+/-- the pad block (text and count contribution): present when the body is not aligned or when `padMode ≥ 1` asks for one anyway -/
+def padBlock (bs bodyLen padMode : Nat) : PyStr × Nat :=
+  if (16 + bodyLen) % bs ≠ 0 ∨ padMode ≥ 1 then
+    ([80, 66] ++ natHex 2 (4 + padSize bs bodyLen padMode) ++ List.replicate (padSize bs bodyLen padMode) 48, 1)
+  else ([], 0)
+
 /-- Build a key block with explicit encoding freedoms:
 `forms` length form per optional block, `padMode` (0: pad block only when needed and minimal; k ≥ 1: always a pad block,
 minimal size plus `(k-1)` cipher blocks), `pad` the key padding bytes (any length making the clear data a block multiple),
@@ -96,12 +106,7 @@ def build (c : Ciphers) (kbpk : Bytes) (h : Header) (forms : List Nat) (padMode 
   let bs := bsOf ver
   let ml := macLenOf ver
   let body := encodeBlocks h.blocks forms
-  let need := (16 + body.length) % bs ≠ 0
-  let (pb, cnt) :=
-    if need ∨ padMode ≥ 1 then
-      let p := (bs - (16 + body.length + 4) % bs) % bs + (padMode - 1) * bs
-      ([80, 66] ++ natHex 2 (4 + p) ++ List.replicate p 48, 1)
-    else ([], 0)
+  let (pb, cnt) := padBlock bs body.length padMode
   let opt := body ++ pb
   let clear := [hi (8 * key.length), lo (8 * key.length)] ++ key ++ pad
   let total := 16 + opt.length + 2 * clear.length + 2 * ml
